@@ -385,3 +385,21 @@ for _n, _o in (('fru_control_cold_reset', 0), ('fru_control_warm_reset', 1), ('f
                     req=(lambda o: lambda a: (0x2c, 0x04, 0, P(a['fru_id'], o)))(_o), res=lambda a, d: None)
 SPEC['fru_control_diagnostic_interrupt'] = dict(kind='write', args=lambda r: {'fru_id': fru(r)},
                                                 req=lambda a: (0x2c, 0x04, 0, P(a['fru_id'], 3)), res=lambda a, d: bytes(d[1:]))
+
+
+def selftest_res(a, d):
+    r = {'status': d[1], 'fail_sdrr_empty': (d[2] >> 3) & 1, 'fail_bmc_fru_interanl_area': (d[2] >> 2) & 1,
+         'fail_bootblock': (d[2] >> 1) & 1, 'fail_mc': d[2] & 1}
+    if d[1] != 0x57:
+        r.update(fail_sel=(d[2] >> 7) & 1, fail_sdrr=(d[2] >> 6) & 1, fail_bmc_fru=(d[2] >> 5) & 1, fail_ipmb=(d[2] >> 4) & 1)
+    return obj('SelfTestResult', **r)
+
+
+# --- HPM.1 status queries
+SPEC['get_target_upgrade_capabilities'] = dict(
+    kind='read', args=lambda r: {}, req=lambda a: (0x2c, 0x2e, 0, P()),
+    res=lambda a, d: obj('TargetUpgradeCapabilities', version=d[1], components=[i for i in range(8) if d[7] >> i & 1]))
+SPEC['get_upgrade_status'] = dict(
+    kind='read', args=lambda r: {}, req=lambda a: (0x2c, 0x34, 0, P()),
+    res=lambda a, d: obj('UpgradeStatus', command_in_progress=d[1], last_completion_code=d[2]))
+SPEC['query_selftest_results'] = dict(kind='read', args=lambda r: {}, req=lambda a: (0x2c, 0x36, 0, P()), res=selftest_res)
